@@ -14,6 +14,7 @@ from __future__ import annotations
 
 import itertools
 import logging
+import os
 import pickle  # noqa: S403
 import re
 import sys
@@ -388,12 +389,19 @@ def perform_cached_doit(
     h = get_readable_hash(unevaluated_expr)
     filename = cache_directory / f"{h}.pkl"
     if filename.exists():
-        with open(filename, "rb") as f:
-            return pickle.load(f)  # noqa: S301
+        try:
+            with open(filename, "rb") as f:
+                cached_key, cached_expr = pickle.load(f)  # noqa: S301
+            if cached_key == unevaluated_expr:
+                return cached_expr
+        except Exception:  # noqa: BLE001  # corrupt or outdated cache file
+            _LOGGER.warning(f"Could not load cached expression file {filename}")
     _LOGGER.warning(
         f"Cached expression file {filename} not found, performing doit()..."
     )
     unfolded_expr = unevaluated_expr.doit()
-    with open(filename, "wb") as f:
-        pickle.dump(unfolded_expr, f)
+    tmp_filename = filename.with_name(f"{filename.name}.{os.getpid()}.tmp")
+    with open(tmp_filename, "wb") as f:
+        pickle.dump((unevaluated_expr, unfolded_expr), f)
+    os.replace(tmp_filename, filename)
     return unfolded_expr
